@@ -498,8 +498,43 @@ let op_dynsrv opidx (_impl : string list option) toks =
            else pr "obs %d dynsrv 1%s\n" opidx (String.concat "" (List.map (fun b -> " " ^ hex_of_bytes b) (srv_hostports parsed))))
   | [] -> ()
 
+(* udp: datagrams through the real udpserverrd; the model attributes each to a client object (C10 association) *)
+let op_udp opidx (_impl : string list option) toks =
+  (* on the implementation's own observations: the request carries its arrival time, and a datagram arriving within
+     the idle period of the previous one from the same address and port belongs to the same client object *)
+  (let last : (string, int * string) Hashtbl.t = Hashtbl.create 8 in
+   List.iter (function
+       | [ "udp"; k; cl; created; _live ] ->
+           (match List.nth_opt toks (int_of_string k) with
+            | Some tok ->
+                (match String.split_on_char ':' tok with
+                 | [ t; ip; port; _ ] ->
+                     let t = int_of_string t and src = ip ^ ":" ^ port in
+                     spec opidx "C10_udp_arrival_time" (created = "created=0") (Printf.sprintf "datagram %s: %s" k created);
+                     (match Hashtbl.find_opt last src with
+                      | Some (t0, cl0) when t - t0 <= 60 ->
+                          spec opidx "C10_udp_same_association" (cl = cl0) (Printf.sprintf "%s at %d and %d: %s then %s" src t0 t cl0 cl)
+                      | _ -> ());
+                     Hashtbl.replace last src (t, cl)
+                 | _ -> ())
+            | None -> ())
+       | _ -> ()) !impl_all_lines);
+  let tbl = ref [] and next = ref O in
+  List.iteri (fun k tok ->
+      match String.split_on_char ':' tok with
+      | [ t; ip; port; _pkt ] ->
+          (match String.split_on_char '.' ip with
+           | [ a; b; c; d ] when int_of_string a = 10 && int_of_string b = 0 && int_of_string c = 0 ->
+               let addr = List.map (fun x -> n_of_int (int_of_string x)) [ a; b; c; d ] in
+               let (l', id), next' = udp_arrival !tbl !next addr (n_of_int (int_of_string port)) (z_of_int (int_of_string t)) in
+               tbl := l'; next := next';
+               pr "obs %d udp %d client=%d created=0 live=%d\n" opidx k (int_of_nat id) (List.length l')
+           | _ -> pr "obs %d udp %d dropped\n" opidx k)   (* the client block of the generated cases is 10.0.0.0/24 *)
+      | _ -> ()) toks
+
 let run (opidx : int) (impl : string list option) (toks : string list) : bool =
   match toks with
+  | "udp" :: rest -> op_udp opidx impl rest; true
   | "dynsrv" :: rest -> op_dynsrv opidx impl rest; true
   | "naptr" :: rest -> op_dns opidx impl "naptr" rest; true
   | "srv" :: rest -> op_dns opidx impl "srv" rest; true
